@@ -341,16 +341,16 @@ Qed.
 Lemma pt_pct_abs_range c :
   Forall (fun x => x <= 2) (pt (BPct true) (P0 PAbs) c).
 Proof.
-  unfold pt. simpl. rewrite map_map. unfold map2. rewrite map_map.
-  apply Forall_forall. intros x Hx. apply in_map_iff in Hx. destruct Hx as [[t p] [<- _]].
-  simpl. destruct (pct_sym_range t p). rewrite Qabs_pos; assumption.
+  unfold pt. apply Forall_forall. intros x Hx. apply in_map_iff in Hx. destruct Hx as [e [<- He]].
+  cbn [base_errs] in He. unfold map2 in He. apply in_map_iff in He. destruct He as [[t p] [<- _]].
+  cbn [pwf pwf0 fst snd]. destruct (pct_sym_range t p). rewrite Qabs_pos; assumption.
 Qed.
 Lemma pt_pct_sq_range c :
   Forall (fun x => x <= 4) (pt (BPct true) (P0 PSq) c).
 Proof.
-  unfold pt. simpl. rewrite map_map. unfold map2. rewrite map_map.
-  apply Forall_forall. intros x Hx. apply in_map_iff in Hx. destruct Hx as [[t p] [<- _]].
-  simpl. destruct (pct_sym_range t p). nra.
+  unfold pt. apply Forall_forall. intros x Hx. apply in_map_iff in Hx. destruct Hx as [e [<- He]].
+  cbn [base_errs] in He. unfold map2 in He. apply in_map_iff in He. destruct He as [[t p] [<- _]].
+  cbn [pwf pwf0 fst snd]. destruct (pct_sym_range t p). nra.
 Qed.
 
 Lemma pt_plain_scale k c cl : 0 < c ->
@@ -526,23 +526,20 @@ Proof.
   rewrite <- (agg_scale (sc k c) a hw _ (sc_pos k c Hc)). apply agg_eql. apply pt_plain_scale.
   assumption.
 Qed.
-Lemma ratio_scale s num den num' den' : 0 < s ->
+Lemma ratio_scale s num : 0 < s -> forall den num' den',
   eql num' (map (Qmult s) num) -> eql den' (map (Qmult s) den) ->
   Forall (fun d => EPS <= d) den -> Forall (fun d => EPS <= d) den' ->
   eql (ratio num' den') (ratio num den).
 Proof.
-  intros Hs Hn; revert den den'. unfold ratio, map2.
-  remember (map (Qmult s) num) as sn eqn:En. revert num En.
-  induction Hn as [|x' y l' ln Hx Hn IH]; intros num En den den' Hd H1 H2.
-  - destruct num; [|discriminate]. constructor.
-  - destruct num as [|x num]; [discriminate|]. simpl in En. injection En as Ey El. subst y.
-    destruct Hd as [|d' dy dl' dl Hdx Hd].
-    + destruct den; [constructor | discriminate].
-    + destruct den as [|d den]; [discriminate|]. simpl in *. subst.
-      inversion H1; subst. inversion H2; subst. constructor.
-      * simpl. rewrite (qmax_hyp _ H3), (qmax_hyp _ H5), Hx, Hdx.
+  intro Hs. unfold ratio, map2. induction num as [|x num IH]; intros den num' den' Hn Hd H1 H2.
+  - inversion Hn; subst. constructor.
+  - inversion Hn as [|x' y l' ln Hx Hn']; subst. destruct den as [|d den].
+    + inversion Hd; subst. simpl. constructor.
+    + inversion Hd as [|d' dy dl' dl Hdx Hd']; subst.
+      inversion H1; subst. inversion H2; subst. cbn [combine map fst snd]. constructor.
+      * rewrite (qmax_hyp _ H3), (qmax_hyp _ H5), Hx, Hdx.
         pose proof EPS_pos. field. split; lra.
-      * apply (IH num eq_refl den dl'); assumption.
+      * apply IH; assumption.
 Qed.
 Theorem scaled_scale_invariant k a sp rt mo hw cols c : 0 < c ->
   let m := mkmetric (FScaled k a sp) rt in
@@ -562,10 +559,12 @@ Theorem raw_is_columnwise m hw cols :
   pre_values (mkfcase m Raw hw cols) =
   flat_map (fun cl => pre_values (mkfcase m Raw hw [cl])) cols.
 Proof.
-  unfold pre_values. simpl. destruct (fam m) as [b k a|k a sp|k a]; simpl.
-  - induction cols; simpl; congruence.
-  - unfold ratio, map2. induction cols; simpl; congruence.
-  - unfold ratio, map2. induction cols; simpl; congruence.
+  unfold pre_values. cbn [f_m f_mo f_hw f_cols mo_avg]. destruct (fam m) as [b k a|k a sp|k a].
+  - induction cols as [|cl cols IH]; cbn [map flat_map app]; [reflexivity | f_equal; exact IH].
+  - unfold ratio, map2. induction cols as [|cl cols IH]; cbn [map flat_map app combine fst snd];
+      [reflexivity | f_equal; exact IH].
+  - unfold ratio, map2. induction cols as [|cl cols IH]; cbn [map flat_map app combine fst snd];
+      [reflexivity | f_equal; exact IH].
 Qed.
 Theorem simple_ignores_mo b k a rt mo hw cols :
   let m := mkmetric (FSimple b k a) rt in
